@@ -872,8 +872,10 @@ func (ex *Exec) checkProtected(st *State, site ssa.Instruction, obj int, what st
 	if ex.curG == 0 || ex.protected == nil {
 		return
 	}
-	if strings.Contains(what, "read") || strings.Contains(what, "len") || strings.Contains(what, "range") {
+	isRead := strings.Contains(what, "read") || strings.Contains(what, "len") || strings.Contains(what, "range")
+	if isRead && !ex.protectedRW[obj] {
 		// reads by the goroutine that is the only writer are not races; only modifications are checked
+		// (objects registered with ProtectRW have several writers: their reads are checked too)
 		return
 	}
 	mu, ok := ex.protected[obj]
@@ -886,6 +888,10 @@ func (ex *Exec) checkProtected(st *State, site ssa.Instruction, obj int, what st
 	}
 	held := smt.Eq(cur, bv64(int64(ex.curG+1)))
 	if held.IsTrue() {
+		return
+	}
+	if isRead {
+		ex.outcome("assert", "C16: device state shared between goroutines is only accessed while holding its mutex ("+what+")", site, smt.And(st.pc, smt.Not(held)))
 		return
 	}
 	ex.outcome("assert", "C16: device state is only modified while holding its mutex ("+what+")", site, smt.And(st.pc, smt.Not(held)))
